@@ -6080,7 +6080,12 @@ func (c *linkerContext) generateGlobalNamePrefix() string {
 		text = fmt.Sprintf("%s%s=%s", prefix, space, space)
 	}
 
-	for _, name := range globalName {
+	for i, name := range globalName {
+		// An object that always exists (e.g. "this") must not be assigned to:
+		// "this.a.b" => "this.a = this.a || {}; this.a.b = ..."
+		if i == 0 && isExistingObject {
+			text = ""
+		}
 		oldPrefix := prefix
 		if js_printer.CanEscapeIdentifier(name, c.options.UnsupportedJSFeatures, c.options.ASCIIOnly) {
 			if c.options.ASCIIOnly {
@@ -6090,7 +6095,11 @@ func (c *linkerContext) generateGlobalNamePrefix() string {
 		} else {
 			prefix = fmt.Sprintf("%s[%s]", prefix, helpers.QuoteForJSON(name, c.options.ASCIIOnly))
 		}
-		text += fmt.Sprintf("%s%s||%s{}%s%s%s=%s", oldPrefix, space, space, join, prefix, space, space)
+		if i == 0 && isExistingObject {
+			text += fmt.Sprintf("%s%s=%s", prefix, space, space)
+		} else {
+			text += fmt.Sprintf("%s%s||%s{}%s%s%s=%s", oldPrefix, space, space, join, prefix, space, space)
+		}
 	}
 
 	return text
